@@ -44,8 +44,8 @@ PROPS = {
         "level": "other",
         "lean": ["PasfmtModel.Props.C03"],
         "streams": [
-            {"stream": "fmt", "families": "seeds_sample,grammar,layout,regions,mlsfam,marked,boundary,boundary,mlscancel,mlsshift,condinline", "quick": 3200, "thorough": 50000,
-             "binding": ["prec", "out", "*"], "args": {"oracles": "c03"}},
+            {"stream": "fmt", "families": "seeds_sample,grammar,layout,regions,mlsfam,marked,boundary,boundary,mlscancel,mlsshift,mlsshift,condinline", "quick": 3600, "thorough": 50000,
+             "binding": ["prec", "wp", "wcn", "sx", "out", "*"], "args": {"oracles": "c03"}},
         ],
         "oracle_prefixes": ["c03", "glue"],
         "abnormal_binding": False,
@@ -111,7 +111,7 @@ PROPS = {
         "level": "other",
         "lean": ["PasfmtModel.Props.C04"],
         "streams": [
-            {"stream": "fmt", "families": "soup,bytes,mutate,directives,dirsoup,seeds_sample,layout,deepnest", "quick": 4200, "thorough": 80000,
+            {"stream": "fmt", "families": "soup,bytes,mutate,directives,dirsoup,seeds_sample,layout,deepnest,lexfam", "quick": 4200, "thorough": 80000,
              "binding": ["*"], "args": {"oracles": "c15,c04", "timeout_ms": 20000}},
             {"stream": "parse", "families": "soup,bytes,mutate,directives,dirsoup,layout", "quick": 3000, "thorough": 40000, "name": "counters"},
             # the total, fuel-bounded Lean model of the whole parser answers (never `model-none`: no panic site reached, fuel 200*(n+10) not exhausted) and agrees
@@ -157,7 +157,7 @@ PROPS = {
         "level": "proof",
         "lean": ["PasfmtModel.Props.C07"],
         "streams": [
-            {"stream": "fmt", "families": ALL_FAMILIES + ",regions", "quick": 3000, "thorough": 40000,
+            {"stream": "fmt", "families": ALL_FAMILIES + ",regions,asmreg", "quick": 3000, "thorough": 40000,
              "binding": ["cl", "marks", "lv", "prec", "wc", "wp", "wcn", "sx", "out", "*"], "args": {"oracles": "c07"}},
         ],
         "oracle_prefixes": ["c07", "glue"],
@@ -221,7 +221,7 @@ PROPS = {
         "level": "proof",
         "lean": ["PasfmtModel.Props.C12"],
         "streams": [
-            {"stream": "fmt", "families": "mlsfam,mlsfam,mlsshift,seeds_sample,layout,bytes", "quick": 3000, "thorough": 40000,
+            {"stream": "fmt", "families": "mlsfam,mlsfam,mlsshift,mlsshift,seeds_sample,layout,bytes", "quick": 3500, "thorough": 40000,
              "binding": ["wc", "wp", "wcn", "sx", "prec", "out", "*"], "args": {"oracles": "c12"}},
         ],
         "oracle_prefixes": ["c12", "glue"],
@@ -257,7 +257,7 @@ PROPS = {
     "C16": {
         "level": "proof",
         "lean": ["PasfmtModel.Props.C16"],
-        "streams": [{"stream": "io", "tool": "iocheck", "which": "c16", "quick": 160, "thorough": 2500}],
+        "streams": [{"stream": "io", "tool": "iocheck", "which": "c16", "quick": 400, "thorough": 4000}],
         "oracle_prefixes": ["c16"],
         "abnormal_binding": False,
         "explanation": "Theorems on the mode logic: seek/write/set_len leaves exactly the written bytes for every old length; files mode "
